@@ -196,8 +196,37 @@ def has(body, kinds):
     return False
 
 
+# programs with a hand-derived trace: defers of a function called FROM a deferred expression, defers in a method, and defers in an
+# iterator body (run after every step, also the step that ends with StopIterErr)
+EXPECT = [
+    ("defer_calls_function_with_defers",
+     'cleanup := {|| defer "cleanup defer 1".p; defer "cleanup defer 2".p; 0}\nf := {|| defer cleanup(); defer "f defer 2".p; defer "f defer 3".p; "body".p}\nf()\n',
+     "body\ncleanup defer 1\ncleanup defer 2\nf defer 2\nf defer 3\n"),
+    ("second_defer_calls_function_with_three",
+     'three := {|| defer "t1".p; defer "t2".p; defer "t3".p; 0}\ng := {|| defer "g1".p; defer three(); defer "g3".p; "gbody".p}\ng()\n',
+     "gbody\ng1\nt1\nt2\nt3\ng3\n"),
+    ("defer_in_iterator_body",
+     'gen := <{|i| defer ("leave step " + i.S).p; yield i if i < 2; recur(i + 1)}>\ngen.new(0)@{|x| x}.p\nit := gen.new(0)\nit.next.p\nit.next.p\n1.try.{|_| it.next}.A.p\n',
+     "leave step 0\nleave step 1\nleave step 2\n[0, 1]\nleave step 0\n0\nleave step 1\n1\nleave step 2\n[nil, [StopIterErr: iter stopped]]\n"),
+    ("defer_in_method",
+     'cleanup := {|| defer "cleanup defer 1".p; defer "cleanup defer 2".p; 0}\nm := {run: m{|| defer "m defer".p; defer cleanup(); "mbody".p}}\nm.run\n',
+     "mbody\nm defer\ncleanup defer 1\ncleanup defer 2\n"),
+]
+
+
 def main(chk):
     ok, broken = obligations(chk, "Props/C15.v")
+    eres = pancore.run_programs(chk, [e[1] for e in EXPECT], cmp_msg=True, tag="C15x")
+    for (name, prog, exp), r in zip(EXPECT, eres):
+        chk.count(prog, True)
+        if r["impl"].get("out") != exp:
+            chk.fail("defer semantics violated (%s): expected trace %r, implementation printed %r (%s)" % (
+                name, exp, r["impl"].get("out"), r["impl"].get("errk")),
+                {"program": prog, "expected_out": exp, "impl": r["impl"]}, klass="C15:" + name)
+        elif r["verdict"] == "disagree":
+            chk.fail("PanCore and the implementation disagree on `%s` although the hand-derived trace accepts the implementation" % name,
+                     {"correspondence": "Core.Interp.eval_body vs evaluator/eval_program.go", "program": prog, "model": r.get("model"), "impl": r["impl"]},
+                     no_input=True)
     bodies = gen_bodies(chk)
     progs = [program(b) for b in bodies]
     res = pancore.run_programs(chk, progs, cmp_msg=True)
@@ -219,7 +248,9 @@ def main(chk):
             model_only.append((b, r))
     chk.cov["verdicts"] = hist
     chk.cov["input_distribution"] = kinds_hist
-    chk.cov["rule"] = ("function bodies from {marker, defer, guarded defer (true/false guard of every built-in type), raising defer, "
+    chk.cov["rule"] = ("%d programs with hand-derived traces (a deferred expression that calls functions with more defers than remain in the caller, "
+                       "defers in a method, defers in an iterator body incl. the step that ends with StopIterErr); " % len(EXPECT) +
+                       "function bodies from {marker, defer, guarded defer (true/false guard of every built-in type), raising defer, "
                        "return, guarded return, raise, guarded raise, raise of each built-in error kind, a yield that stops an iterator body, failing expression, nested call}: all 1-/2-statement bodies, "
                        "(a third of) 3-statement bodies, an exit injected at every index of a defer-rich skeleton at nesting 0/1/2, "
                        "seeded random bodies of length<=6 (10 thorough), nesting<=3. non-trivial: a defer and an exit/nested call/raising "
